@@ -179,8 +179,6 @@ class NumpyHasher(Hasher):
             objects.
         """
         self.coerce_mmap = coerce_mmap
-        # True while the stand-in of an array is being saved (see save).
-        self._saving_array_standin = False
         Hasher.__init__(self, hash_name=hash_name)
         # delayed import of numpy, to avoid tight coupling
         import numpy as np
@@ -234,12 +232,6 @@ class NumpyHasher(Hasher):
 
             # The object will be pickled by the pickler hashed at the end.
             obj = (klass, ("HASHED", obj.dtype, obj.shape, obj.strides))
-            self._saving_array_standin = True
-            try:
-                Hasher.save(self, obj)
-            finally:
-                self._saving_array_standin = False
-            return
         elif isinstance(obj, self.np.dtype):
             # numpy.dtype consistent hashing is tricky to get right. This comes
             # from the fact that atomic np.dtype objects are interned:
@@ -256,16 +248,9 @@ class NumpyHasher(Hasher):
             # the serialization (and thus the pickle memoization) of each dtype
             # using each time a different ``pickle.dumps`` call unrelated to
             # the current Hasher instance.
-            if self._saving_array_standin:
-                # The dtype of an array: it has a fixed place in the stand-in
-                # of the array, feeding it to the hash directly is enough.
-                self._hash.update("_HASHED_DTYPE".encode("utf-8"))
-                self._hash.update(pickle.dumps(obj))
-                return
-            # A dtype among other values ([dtype, 1] vs [1, dtype]): its
-            # position has to be part of the stream that is hashed at the end.
-            # The pickled bytes are never memoized by the Hasher.
-            obj = ("_HASHED_DTYPE", pickle.dumps(obj))
+            self._hash.update("_HASHED_DTYPE".encode("utf-8"))
+            self._hash.update(pickle.dumps(obj))
+            return
         Hasher.save(self, obj)
 
 
